@@ -73,6 +73,26 @@ theorem det_joint_prec (L S : Matrix m m α) (hLS : L * S = 1) (hSL : S * L = 1)
       Matrix.mul_one, ← Matrix.mul_assoc, add_sub_cancel_right]
   rw [this]
 
+/-- Schur determinant, pivot on the (1,1) block, with the inverse given by hypotheses. -/
+theorem det_fromBlocks11 (A Ai : Matrix m m α) (hA : A * Ai = 1) (hA' : Ai * A = 1)
+    (B : Matrix m n α) (C : Matrix n m α) (D : Matrix n n α) :
+    det (Matrix.fromBlocks A B C D) = det A * det (D - C * Ai * B) := by
+  let _ : Invertible A := ⟨Ai, hA', hA⟩
+  have hinv : ⅟A = Ai := rfl
+  rw [det_fromBlocks₁₁, hinv]
+
+/-- Schur determinant, pivot on the (2,2) block, with the inverse given by hypotheses. -/
+theorem det_fromBlocks22 (A : Matrix m m α) (B : Matrix m n α) (C : Matrix n m α)
+    (D Di : Matrix n n α) (hD : D * Di = 1) (hD' : Di * D = 1) :
+    det (Matrix.fromBlocks A B C D) = det D * det (A - B * Di * C) := by
+  let _ : Invertible D := ⟨Di, hD', hD⟩
+  have hinv : ⅟D = Di := rfl
+  rw [det_fromBlocks₂₂, hinv]
+
+/-- alias used by the Python side -/
+theorem det_diagonal (d : n → α) : det (Matrix.diagonal d) = ∏ i, d i :=
+  Matrix.det_diagonal
+
 /-- 7. Determinant of a principal sub-block of `Σ` in terms of the complementary
 block of its inverse `Λ` (marginalisation: `det Σ_aa = det Σ * det Λ_cc`). -/
 theorem det_principal_submatrix (Sg Lm : Matrix (a ⊕ c) (a ⊕ c) α)
